@@ -364,6 +364,7 @@ def run_sim(cfg, max_days=None, fail_gd_on=None, keep=False, hook=None):
         else:
             exp += ["N"]
         if keep:
+            d["raw_rows"] = (np.array(fl, dtype=float).copy(), np.array(gr, dtype=float).copy(), np.array(stg, dtype=float).copy())
             d["clock0"] = clock0; d["weather"] = weather; d["pre"] = pre; d["exp_core"] = " ".join(exp).split(); d["res_keep"] = dict(d["res"])
             d["exp_rows"] = " ".join(exp[nstate_toks:]).split()      # the three table rows and the summary row (or N)
         # the arguments each process received
@@ -430,6 +431,31 @@ def run_sim(cfg, max_days=None, fail_gd_on=None, keep=False, hook=None):
     if keep:      # what the whole-run suite (runc) compares at the end: clock and state after the last update_time
         ic = m._init_cond
         out["n_steps"] = int(len(cs.time_span))
+        # the tables the USER gets (get_water_flux / get_crop_growth / get_water_storage after the conversion to DataFrames) must
+        # hold, row for row and bit for bit, what each step wrote (NaN = NaN); the rows of steps that were never simulated stay 0
+        out["final_tables_differ"] = None
+        if err is None and m._clock_struct.model_is_finished:
+            try:
+                F = np.asarray(m.get_water_flux().values, dtype=float); G = np.asarray(m.get_crop_growth().values, dtype=float)
+                S = np.asarray(m.get_water_storage().values, dtype=float)
+                same = lambda a, b: a.shape == b.shape and bool(np.all((a == b) | (np.isnan(a) & np.isnan(b))))
+                for d in days:
+                    fl0, gr0, st0 = d["raw_rows"]; t = d["tsc"]
+                    for nm, T, r0 in (("water_flux", F, fl0), ("crop_growth", G, gr0), ("water_storage", S, st0)):
+                        if not same(np.asarray(T[t], dtype=float), r0):
+                            k = int(np.argmax(~((T[t] == r0) | (np.isnan(T[t]) & np.isnan(r0)))))
+                            out["final_tables_differ"] = "%s row %d column %d: the step wrote %r, the final table holds %r" % (nm, t, k, float(r0[k]), float(T[t][k]))
+                            break
+                    if out["final_tables_differ"]:
+                        break
+                simulated = set(d["tsc"] for d in days)
+                if not out["final_tables_differ"]:
+                    for t in range(F.shape[0]):
+                        if t not in simulated and (np.any(F[t] != 0) or np.any(G[t] != 0)):
+                            out["final_tables_differ"] = "row %d was never simulated but is not empty in the final tables" % t
+                            break
+            except Exception as e:
+                out["final_tables_differ"] = "reading the final tables raised %s: %s" % (type(e).__name__, str(e)[:120])
         out["final"] = " ".join([eZ(cs.time_step_counter), eZ(cs.season_counter), eB(cs.model_is_finished),
                                  eZ(ic.dap), eB(ic.crop_mature), eB(ic.harvest_flag)] + enc_state(ic)).split()
     return out
